@@ -129,13 +129,9 @@ def linearParts (S : SR K) (G : Grammar K) (x : Val K) (comp : List Nat) :
   else
     let f0 := comp.map (fun X => (X, (G.rulesOf X).foldl (fun acc r =>
       if (compEdges G comp r).length == 0 then addOpt S acc (Impl.sumProductEdges S G x0 r.nodes r.edges r.ext) else acc) none))
-    let j0 := comp.flatMap (fun X => comp.map (fun Y => ((X, Y), (G.rulesOf X).foldl (fun acc r =>
-      if (compEdges G comp r).length == 1 then
-        (List.range r.edges.length).foldl (fun acc i =>
-          match r.edges[i]? with
-          | some e => if decide (e.1 ≥ G.T) && e.1 - G.T == Y && comp.contains Y then addOpt S acc (jacTerm S G x0 r i) else acc
-          | none => acc) acc
-      else acc) none)))
+    -- `J0[X, Y]`: once every rule has at most one edge in the component, the rules with exactly one such edge, labelled `Y`,
+    -- are exactly the terms of the Jacobian block of `X` with respect to `Y` at the inputs
+    let j0 := comp.flatMap (fun X => comp.map (fun Y => ((X, Y), jacLabel S G x0 X (G.T + Y))))
     pure (f0, j0)
 
 /-- the flattened system `x = A x + b` of a linear component -/
